@@ -8,6 +8,8 @@ import Matreex.Model.Construct
 import Matreex.Model.Swap
 import Matreex.Model.Overwrite
 import Matreex.Model.Elementwise
+import Matreex.Model.Mul
+import Matreex.Model.Iter
 
 namespace Driver
 open Matreex
@@ -90,6 +92,21 @@ def stepEw (w : World) (dst a b : Nat) (variant opname : String) (panicOnErr : B
     | .ok (.ok m') => pure (fin (w1.set dst (some m')) "ok")
     | .ok (.error e) => pure (fin w1 (if panicOnErr then "panic" else "err " ++ e.name))
 
+/-- consume a double-ended exact-size iterator (= a list) following a pattern of F(ront) /
+B(ack) calls, then drain the rest from the front; returns the items in consumption order,
+each with the `len()` reported *before* the call -/
+def consumeList {β : Type} : List Char → List β → List (Nat × β)
+  | _, [] => []
+  | [], x :: xs => (xs.length + 1, x) :: consumeList [] xs
+  | 'B' :: ps, x :: xs =>
+    let l := x :: xs
+    match l.getLast? with
+    | some y => (l.length, y) :: consumeList ps l.dropLast
+    | none => []
+  | _ :: ps, x :: xs => (xs.length + 1, x) :: consumeList ps xs
+termination_by _ l => l.length
+decreasing_by all_goals simp_all
+
 def mkMatrix (o : Order) (r c base : Nat) (zst : Bool) : Matrix String :=
   ⟨o, (Shape.mk r c).toAxis o,
     (Array.range (r * c)).map fun k => if zst then "u" else toString (base + k)⟩
@@ -130,6 +147,47 @@ def stepHist (w : World) (ws : List String) : Option (World × String) :=
     -- `Clone::clone` of a token appends a prime to its payload (so clones are visible)
     let (w', s) := inplace w r (fun m => m.overwrite (w.cloneFn) src)
     pure (w', s ++ " | " ++ stStr src)
+  | ["iter", r, variant, pattern] => do
+    -- element iterators; variants containing "wi" report indices; "into*" consume the matrix
+    let r ← r.toNat?
+    let m ← w.get r
+    let w' := if variant.startsWith "into" then w.set r none else w
+    let pat := if pattern = "-" then [] else pattern.toList
+    if (variant.splitOn "wi").length > 1 then
+      match m.iterWithIndex with
+      | .error e => pure (w', faultStr e)
+      | .ok items =>
+        let c := consumeList pat items
+        pure (w', "ok " ++ showList (fun (p : Nat × (Index × String)) => s!"{p.1}:{p.2.1.row}.{p.2.1.col}={p.2.2}") c)
+    else
+      let c := consumeList pat m.iterElements
+      pure (w', "ok " ++ showList (fun (p : Nat × String) => s!"{p.1}:{p.2}") c)
+  | ["mul", dst, a, b, kind] => do
+    -- kind: multiply | like | op_oo | op_ob | op_bo | op_bb (operator *, owned/borrowed self and rhs)
+    let dst ← dst.toNat?; let a ← a.toNat?; let b ← b.toNat?
+    let ma ← w.get a
+    let mb ← w.get b
+    let selfOwned := kind = "multiply" ∨ kind = "like" ∨ kind = "op_oo" ∨ kind = "op_ob"
+    let rhsOwned := kind = "multiply" ∨ kind = "like" ∨ kind = "op_oo" ∨ kind = "op_bo"
+    -- a borrowed operand is cloned as a whole first (`self.clone() * rhs.clone()`)
+    let cloneM := fun (m : Matrix String) => { m with data := m.data.map w.cloneFn }
+    let xa := if selfOwned then ma else cloneM ma
+    let xb := if rhsOwned then mb else cloneM mb
+    let mulF := fun (x y : String) => "(" ++ w.cloneFn x ++ "*" ++ w.cloneFn y ++ ")"
+    let addF := fun (x y : String) => "(" ++ x ++ "+" ++ y ++ ")"
+    let likeF := fun (ls rs : List String) => "<" ++ ";".intercalate ls ++ "|" ++ ";".intercalate rs ++ ">"
+    let res := if kind = "like" then xa.multiplicationLike w.zst w.zst w.es xb likeF w.dfltStr
+      else xa.multiply w.zst w.zst w.es xb mulF addF w.dfltStr
+    let w1 := if selfOwned then w.set a none else w
+    let w2 := if rhsOwned then w1.set b none else w1
+    let isOp := kind.startsWith "op_"
+    match res with
+    | .error e => pure (w2, faultStr e)
+    | .ok (.error e) =>
+      pure (w2, (if isOp then "panic" else "err " ++ e.name) ++ " | " ++ w2.regStr dst ++ " | " ++ w2.regStr a ++ " | " ++ w2.regStr b)
+    | .ok (.ok c) =>
+      let w3 := w2.set dst (some c)
+      pure (w3, "ok | " ++ w3.regStr dst ++ " | " ++ w3.regStr a ++ " | " ++ w3.regStr b)
   | ["scgen", dst, a, variant] => do
     -- generic scalar_operation family with a recording closure `[element|scalar]`, scalar "S"
     let dst ← dst.toNat?; let a ← a.toNat?
